@@ -33,6 +33,31 @@ pub(crate) enum LineMapping {
     Offset { start_line: usize },
 }
 
+/// Return `text` with every lone `\r` (a `\r` that is not followed by `\n`) replaced by `\n`.
+///
+/// YAML ends a line at LF, at CRLF (one break) and at a lone CR, and the lines of a
+/// [`Location`] are counted that way. The line-based helpers of this module split at `\n` and
+/// strip the `\r` of a CRLF pair, so they are handed the text in this form. `\r` and `\n` are
+/// both one byte long: byte offsets, lengths and character columns are unchanged.
+/// Borrows when the text has no lone `\r`.
+pub(crate) fn normalize_line_breaks(text: &str) -> std::borrow::Cow<'_, str> {
+    let bytes = text.as_bytes();
+    let lone_cr = |i: usize| bytes[i] == b'\r' && bytes.get(i + 1) != Some(&b'\n');
+    if !(0..bytes.len()).any(lone_cr) {
+        return std::borrow::Cow::Borrowed(text);
+    }
+    let mut out = String::with_capacity(text.len());
+    let mut chars = text.chars().peekable();
+    while let Some(c) = chars.next() {
+        if c == '\r' && chars.peek() != Some(&'\n') {
+            out.push('\n');
+        } else {
+            out.push(c);
+        }
+    }
+    std::borrow::Cow::Owned(out)
+}
+
 /// Crop a small source window around `location` and return `(cropped_text, start_line)`.
 ///
 /// - `cropped_text` contains a vertical window of a few lines around the error location.
@@ -54,6 +79,10 @@ pub(crate) fn crop_source_window(
 
     // Keep snippet coordinates aligned with parsers that ignore a leading UTF-8 BOM.
     let text = text.strip_prefix('\u{FEFF}').unwrap_or(text);
+
+    // Split lines as YAML does: a lone CR is a line break too.
+    let text = normalize_line_breaks(text);
+    let text = text.as_ref();
 
     // Map absolute YAML line to the coordinates within `text`.
     let absolute_row = location.line as usize;
@@ -322,7 +351,11 @@ impl<'a> Snippet<'a> {
             }
         };
 
-        let line_starts = line_starts(self.source.text);
+        // Split lines as YAML does: a lone CR is a line break too.
+        let text = normalize_line_breaks(self.source.text);
+        let text = text.as_ref();
+
+        let line_starts = line_starts(text);
         if line_starts.is_empty() {
             return fmt_with_location(f, l10n, msg, location);
         }
@@ -333,7 +366,7 @@ impl<'a> Snippet<'a> {
         }
 
         let Some(start) =
-            line_col_to_byte_offset_with_starts(self.source.text, &line_starts, relative_row, col)
+            line_col_to_byte_offset_with_starts(text, &line_starts, relative_row, col)
         else {
             return fmt_with_location(f, l10n, msg, location);
         };
@@ -341,9 +374,9 @@ impl<'a> Snippet<'a> {
         // Create a minimal span for the primary annotation:
         // - usually one character
         // - for EOL (pointing at '\n') or EOF, use an empty span (caret-like).
-        let end = match self.source.text.as_bytes().get(start) {
+        let end = match text.as_bytes().get(start) {
             Some(b'\n') | Some(b'\r') => start,
-            _ => next_char_boundary(self.source.text, start).unwrap_or(start),
+            _ => next_char_boundary(text, start).unwrap_or(start),
         };
 
         // Render a small window around the error location:
@@ -360,9 +393,9 @@ impl<'a> Snippet<'a> {
         let window_end = if window_end_row < total_lines {
             line_starts[window_end_row]
         } else {
-            self.source.text.len()
+            text.len()
         };
-        let window_text = &self.source.text[window_start..window_end];
+        let window_text = &text[window_start..window_end];
 
         let local_start = start.saturating_sub(window_start).min(window_text.len());
         let local_end = end.saturating_sub(window_start).min(window_text.len());
@@ -478,6 +511,10 @@ fn fmt_snippet_window_with_mapping_or_fallback(
             absolute_row.saturating_sub(start_line).saturating_add(1)
         }
     };
+
+    // Split lines as YAML does: a lone CR is a line break too.
+    let text = normalize_line_breaks(text);
+    let text = text.as_ref();
 
     let line_starts = line_starts(text);
     if line_starts.is_empty() {
